@@ -883,14 +883,18 @@ def fmt_arguments(ex, args, m):
     return Opaque('fmt', (tmpl, fargs))
 
 
-@model(r'(?:core::fmt::rt::|std::fmt::)?Argument::<.*>::new_(display|debug|lower_hex)::<.*>')
+@model(r'(?:core::fmt::rt::|std::fmt::)?Argument::<.*>::new_(lower_hex)::<.*>')
 def fmt_argument(ex, args, m): return Opaque('fmtarg', args[0])
 
 
 @model(r'(?:std::fmt::|alloc::fmt::)?format|(?:std::fmt::|alloc::fmt::)?format::format_inner|std::fmt::format|alloc::fmt::format')
 def fmt_format(ex, args):
-    # message text is not interpreted unless a harness installs a string-level model
-    return Opaque('formatted', args[0].data if isinstance(args[0], Opaque) else None)
+    a = args[0]
+    data = a.data if isinstance(a, Opaque) else None
+    if data is None: return Opaque('formatted', None)
+    if ex.h.notes.get('render_format'):
+        f = FormatterV(); render_args(ex, data, f); return StrV(f.buf)
+    return Opaque('formatted', data)
 
 
 @model(r'(?:std::hint::|core::hint::)?must_use::<.*>')
@@ -1249,3 +1253,97 @@ def prim_arith_ref(ex, args, m):
         return r
     ex.oblige(z3.And(r >= lo, r <= hi), 'overflow', 'arithmetic overflow in %s' % m.group(0))
     return simp(r)
+
+
+# ------------------------------------------------------------------ fmt: Display / Debug through the real impls
+class FormatterV:
+    """core::fmt::Formatter writing into a string buffer"""
+    rust_type = 'Formatter'
+
+    def __init__(self): self.buf = []
+    def clone(self): return self
+
+
+def decode_template(t):
+    """this nightly's byte-coded format template: <len><literal bytes> | 0xC0 (next argument, default spec) | 0x00 end"""
+    if isinstance(t, str): return [('lit', t)]
+    out = []; i = 0
+    while i < len(t):
+        b = t[i]
+        if b == 0: break
+        if b < 0x80:
+            out.append(('lit', bytes(t[i + 1:i + 1 + b]).decode('utf-8'))); i += 1 + b
+        elif b == 0xC0:
+            out.append(('arg',)); i += 1
+        else:
+            raise Unsupported('format template with a non-default argument spec (0x%02x)' % b)
+    return out
+
+
+def render_value(ex, v, f, debug=False):
+    """append the Display (or Debug) rendering of v to formatter f"""
+    from .engine import _dynamic_dispatch
+    x = v
+    while isinstance(x, Ref): x = x.get()
+    if isinstance(x, StrV):
+        if debug: f.buf.append(ord('"')); f.buf.extend(x.chars); f.buf.append(ord('"'))
+        else: f.buf.extend(x.chars)
+        return
+    if isinstance(x, bool): f.buf.extend(map(ord, 'true' if x else 'false')); return
+    if isinstance(x, int): f.buf.extend(map(ord, str(x))); return
+    if isinstance(x, BigV) and isinstance(x.t, int): f.buf.extend(map(ord, str(x.t))); return
+    if is_sym(x) or (isinstance(x, BigV) and is_sym(x.t)): raise Unsupported('formatting a symbolic number')
+    if isinstance(x, Opaque) and x.tag == 'formatted':
+        render_args(ex, x.data, f); return
+    r = _dynamic_dispatch(ex, 'Debug' if debug else 'Display', 'fmt', 'fmt')(ex, [Ref([x], 0), Ref([f], 0)])
+    return r
+
+
+def render_args(ex, data, f):
+    tmpl, fargs = data
+    k = 0
+    for piece in decode_template(tmpl):
+        if piece[0] == 'lit': f.buf.extend(map(ord, piece[1]))
+        else:
+            a = fargs[k]; k += 1
+            dbg = False
+            if isinstance(a, tuple): a, dbg = a
+            render_value(ex, a, f, dbg)
+
+
+@model(r'(?:core::fmt::rt::|std::fmt::)?Argument::<.*>::new_(display|debug)::<.*>')
+def fmt_argument2(ex, args, m): return Opaque('fmtarg', (args[0], m.group(1) == 'debug'))
+
+
+@model(r'(?:std::fmt::|core::fmt::)?Formatter::<.*>::write_fmt|(?:std::fmt::|core::fmt::)?Formatter::write_fmt|<(?:std::fmt::)?Formatter<.*> as (?:std::fmt::)?Write>::write_fmt')
+def formatter_write_fmt(ex, args):
+    f = deref(args[0]); a = args[1]
+    if not isinstance(f, FormatterV): return ok(UNIT)       # a formatter the harness does not observe
+    render_args(ex, a.data, f)
+    return ok(UNIT)
+
+
+@model(r'(?:std::fmt::|core::fmt::)?Formatter::<.*>::write_str|(?:std::fmt::|core::fmt::)?Formatter::write_str|<(?:std::fmt::)?Formatter<.*> as (?:std::fmt::)?Write>::write_str')
+def formatter_write_str(ex, args):
+    f = deref(args[0])
+    if isinstance(f, FormatterV): f.buf.extend(as_str(args[1]).chars)
+    return ok(UNIT)
+
+
+@model(r'<(.+) as ToString>::to_string')
+def generic_to_string(ex, args, m):
+    f = FormatterV()
+    render_value(ex, args[0], f)
+    return StrV(f.buf)
+
+
+@model(r'(?:std::option::)?Option::<.*>::ok_or_else::<.*>')
+def opt_ok_or_else(ex, args):
+    o = args[0]
+    return ok(o.f[0]) if o.var == 'Some' else err(ex.call_value(args[1], []))
+
+
+@model(r'<\[.*; \d+\] as IntoIterator>::into_iter')
+def array_into_iter(ex, args):
+    v = args[0]
+    return SeqIter(list(v.items)) if isinstance(v, VecV) else SeqIter(seq_of(ex, v))
